@@ -4,9 +4,9 @@ import GqlProofs.PlanReach
 namespace GqlModel.Plan
 open GqlModel.Exec GqlModel.Coerce
 
-/-- on a flat world every value the per-field phase of a mutation stores is closure-free: everything a top-level field deferred was
-forced within its block -/
-theorem mRootMut_settled {c : Ctx} {alt : Alt} (hw : flatWorld c.world = true) (ha : AltND alt) (dfuel : Nat) (rt : String) :
+/-- every value the per-field phase of a mutation stores is closure-free: everything a top-level field deferred was forced within
+its block -/
+theorem mRootMut_settled {c : Ctx} {alt : Alt} (ha : AltND alt) (dfuel : Nat) (rt : String) :
     ∀ (fuel : Nat) (fps : List FieldPlan) (acc : List (String × PVal)) (st : MSt), (∀ x ∈ acc, NoDef x.2) →
     ∀ fs, (mRootMut c alt dfuel fuel rt fps acc st).1 = .ok fs → ∀ x ∈ fs, NoDef x.2
   | 0, fps, acc, st, _, fs, h => by simp only [mRootMut] at h; cases h
@@ -14,46 +14,45 @@ theorem mRootMut_settled {c : Ctx} {alt : Alt} (hw : flatWorld c.world = true) (
   | fuel + 1, fp :: rest, acc, st, hacc, fs, h => by
     simp only [mRootMut] at h
     by_cases hp : (!(fp.pred.eval c.schema c.vars)) = true
-    · simp only [hp, if_true] at h; exact mRootMut_settled hw ha dfuel rt fuel rest acc st hacc fs h
+    · simp only [hp, if_true] at h; exact mRootMut_settled ha dfuel rt fuel rest acc st hacc fs h
     · simp only [hp, Bool.false_eq_true, if_false] at h
       cases hfd : fp.fieldDef with
-      | none => simp only [hfd] at h; exact mRootMut_settled hw ha dfuel rt fuel rest acc st hacc fs h
+      | none => simp only [hfd] at h; exact mRootMut_settled ha dfuel rt fuel rest acc st hacc fs h
       | some fd =>
         simp only [hfd] at h
-        have hf1 := (flatP (c := c) (alt := alt) hw fuel).field false rt .nil [.key fp.key] [(rt, fp.key)] fp fd st
         have hf2 := (nodupP (c := c) (alt := alt) ha fuel).field false rt .nil [.key fp.key] [(rt, fp.key)] fp fd st
-        generalize mField c alt fuel false rt .nil [.key fp.key] [(rt, fp.key)] fp fd st = z at hf1 hf2 h
+        generalize mField c alt fuel false rt .nil [.key fp.key] [(rt, fp.key)] fp fd st = z at hf2 h
         obtain ⟨r1, st1⟩ := z
         cases r1 with
         | fail => simp only at h; cases h
         | fuelOut => simp only at h; cases h
         | ok v =>
           simp only at h
-          have hd := (dfsS (frcFlat_force (c := c) (alt := alt) hw ha dfuel) dfuel).val v st1 (hf1 v rfl) (hf2 v rfl)
-          generalize dfsVal (force c alt dfuel) dfuel v st1 = z2 at hd h
+          have hd := (dfsS (frcFlat_forceAll (c := c) (alt := alt) ha dfuel) dfuel).val v st1 (hf2 v rfl)
+          generalize dfsVal (forceAll c alt dfuel) dfuel v st1 = z2 at hd h
           obtain ⟨r2, st2⟩ := z2
           cases r2 with
           | fail => simp only at h; cases h
           | fuelOut => simp only at h; cases h
           | ok v' =>
             simp only at h
-            refine mRootMut_settled hw ha dfuel rt fuel rest _ st2 ?_ fs h
+            refine mRootMut_settled ha dfuel rt fuel rest _ st2 ?_ fs h
             intro x hx
             rcases List.mem_append.1 hx with hx | hx
             · exact hacc x hx
             · simp only [List.mem_singleton] at hx; rw [hx]; exact hd v' rfl
 
-/-- the walk of a MUTATION plan: the events are one contiguous block per top-level field in plan order (any world); on a flat world
-the data is closure-free and the final `dethunkMapDepthFirst` pass does nothing -/
+/-- the walk of a MUTATION plan: the events are one contiguous block per top-level field in plan order, the data is closure-free
+and the final `dethunkMapDepthFirst` pass does nothing -/
 theorem runPlan_mutation {c : Ctx} {alt : Alt} (q : Plan) (hmut : q.isMutation = true) (fuel : Nat) (st0 : MSt)
-    (hw : flatWorld c.world = true) (ha : AltND alt) (r : Res (List (String × PVal))) (st : MSt)
+    (ha : AltND alt) (r : Res (List (String × PVal))) (st : MSt)
     (h : runPlan c alt q fuel st0 = (r, st)) (hr : r ≠ .fuelOut) :
     (∃ new, st.events = new ++ st0.events ∧ MSerial (q.root.map (·.key)) new.reverse) ∧
     ∀ fs, r = .ok fs → ∀ x ∈ fs, NoDef x.2 := by
   unfold runPlan at h
   simp only [hmut, if_true] at h
   have hser := mRootMut_serial c alt fuel q.rootType fuel q.root [] st0
-  have hset := mRootMut_settled (c := c) (alt := alt) hw ha fuel q.rootType fuel q.root [] st0 (fun _ h => by cases h)
+  have hset := mRootMut_settled (c := c) (alt := alt) ha fuel q.rootType fuel q.root [] st0 (fun _ h => by cases h)
   generalize mRootMut c alt fuel fuel q.rootType q.root [] st0 = z at hser hset h
   obtain ⟨r1, st1⟩ := z
   cases r1 with
@@ -67,16 +66,16 @@ theorem runPlan_mutation {c : Ctx} {alt : Alt} (q : Plan) (hmut : q.isMutation =
   | ok fs =>
     simp only at h
     have hnd := hset fs rfl
-    rcases (dfsId (frc := force c alt fuel) fuel).fields (sortedKeys fs) fs st1 hnd with h2 | h2
+    rcases (dfsId (frc := forceAll c alt fuel) fuel).fields (sortedKeys fs) fs st1 hnd with h2 | h2
     · rw [h2] at h; simp only [Prod.mk.injEq] at h; exact absurd h.1.symm hr
     · rw [h2] at h
       simp only [Prod.mk.injEq] at h
       obtain ⟨rfl, rfl⟩ := h
       exact ⟨hser, fun gs hg => by simp only [Res.ok.injEq] at hg; subst hg; exact hnd⟩
 
-/-- request level (`PlanQuery` + `ExecutePlan` on a mutation operation, flat world) -/
+/-- request level (`PlanQuery` + `ExecutePlan` on a mutation operation) -/
 theorem run_mutation_serial (s : Schema) (doc : Document) (opName : String) (inputs : Vars) (w : World) (fuel : Nat)
-    (hw : flatWorld w = true) (p : Plan) (hp : planQuery s doc opName = .ok p) (hmut : p.isMutation = true)
+    (p : Plan) (hp : planQuery s doc opName = .ok p) (hmut : p.isMutation = true)
     (data : Option (List (String × PVal))) (errs : List (Path × Bool)) (events : List Event)
     (h : run s doc opName inputs w fuel = .result data errs events) :
     ∃ keys : List String, keys.Nodup ∧ MSerial keys events ∧ ∀ fs, data = some fs → ∀ x ∈ fs, NoDef x.2 := by
@@ -104,7 +103,7 @@ theorem run_mutation_serial (s : Schema) (doc : Document) (opName : String) (inp
     have hne : r ≠ .fuelOut := by
       intro hf; subst hf; simp [MResponse.of] at h
     obtain ⟨⟨new, hev, hser⟩, hset⟩ := runPlan_mutation (c := { schema := q.schema, frags := q.frags, vars := vars, world := w })
-      q hqm fuel _ hw (altND_recompute _ _ _) r st hrun hne
+      q hqm fuel _ (altND_recompute _ _ _) r st hrun hne
     simp only [List.append_nil] at hev
     refine ⟨q.root.map (·.key), (by simpa [KeysNodup] using hqr), ?_, ?_⟩
     · cases r with
